@@ -12,7 +12,7 @@ import (
 func (e *Engine) verifyLemma(lm *Lemma) *FuncResult {
 	key := "lemma:" + lm.Name
 	vc := newVC(e, key)
-	x := &Exec{eng: e, vc: vc, heapSorts: map[string]Sort{}, written: map[string]bool{}, nilSeen: map[string]*ssa.BasicBlock{}, arith: "math", usedModels: map[string]bool{}, poolVals: map[string]bool{}, matched: map[string]bool{}}
+	x := &Exec{eng: e, vc: vc, heapSorts: map[string]Sort{}, written: map[string]bool{}, nilSeen: map[string]*ssa.BasicBlock{}, arith: "math", usedModels: map[string]bool{}, poolVals: map[string]bool{}, matched: map[string]bool{}, subLits: map[string]Term{}, boxedAddrs: map[string]VAddr{}}
 	st := &State{pc: TTrue, cells: map[*ssa.Alloc]Value{}, heap: map[string]Term{}, defers: map[*ssa.Defer]deferRec{}}
 	vars := map[string]TV{}
 	for _, v := range lm.Vars {
